@@ -156,6 +156,10 @@ End Median.
 
 Definition cfg_wf (G : cfg) : Prop := 0 < g_w G /\ Z.odd (g_w G) = true /\ 0 < g_s G /\ g_dmin G <= g_dmax G.
 
+(* census: window_size 1, 3 or 5 (the code accepts 3 and 5): the bit string fits the uint32 popcount *)
+Definition meas_wf (G : cfg) (m : mmeas) : Prop :=
+  match m with MCensus => g_w G * g_w G <= 32 | _ => True end.
+
 Lemma curve_ext : forall vol vol' n r c r' c',
   (forall k, 0 <= k < n -> vol r c k = vol' r' c' k) -> curve vol n r c = curve vol' n r' c'.
 Proof.
@@ -182,8 +186,9 @@ Proof.
 Qed.
 
 Section MC.
-  Variables (ssd : bool) (E : Criteria.env) (G : cfg).
+  Variables (m : mmeas) (E : Criteria.env) (G : cfg).
   Hypothesis Hwf : cfg_wf G.
+  Hypothesis Hm : meas_wf G m.
   Variables (F F' : frame pix) (r c r' c' : Z).
   Hypothesis HF : cone_in F (rad_mc G) r c.
   Hypothesis HF' : cone_in F' (rad_mc G) r' c'.
@@ -213,8 +218,8 @@ Section MC.
   Qed.
 
   Lemma left_curve_local :
-    curve ((if ssd then MatchingCost.ssd_volume else MatchingCost.sad_volume) (inp_left G F) (g_dmin G) (g_dmax G)) (n_disp G) r c
-    = curve ((if ssd then MatchingCost.ssd_volume else MatchingCost.sad_volume) (inp_left G F') (g_dmin G) (g_dmax G)) (n_disp G) r' c'.
+    curve (mc_vol m (inp_left G F) (g_dmin G) (g_dmax G)) (n_disp G) r c
+    = curve (mc_vol m (inp_left G F') (g_dmin G) (g_dmax G)) (n_disp G) r' c'.
   Proof.
     pose proof h0 as Hh. destruct Hwf as (Hw & Ho & Hs & Hdd).
     assert (Hin : in_frame F r c /\ in_frame F' r' c').
@@ -237,10 +242,15 @@ Section MC.
       assert (Hb' : - (h + dspan G) <= b <= h + dspan G) by lia.
       destruct (px_at a b Ha Hb') as (E1 & E2 & E3). rewrite E2, E3. unfold fld. rewrite E1.
       split; [reflexivity|]. split; [reflexivity|]. apply (omask_agree (g_hasR G) p_mR a b Ha Hb'). }
-    destruct ssd.
+    destruct m as [| | |zq]; cbn [mc_vol].
+    - apply (LocalCostP.sad_model_local (inp_left G F) (inp_left G F') (g_dmin G) (g_dmax G) r c r' c' k);
+        try assumption; cbn; try (repeat split; assumption); try lia; repeat split; reflexivity.
     - apply (LocalCostP.ssd_model_local (inp_left G F) (inp_left G F') (g_dmin G) (g_dmax G) r c r' c' k);
         try assumption; cbn; try (repeat split; assumption); try lia; repeat split; reflexivity.
-    - apply (LocalCostP.sad_model_local (inp_left G F) (inp_left G F') (g_dmin G) (g_dmax G) r c r' c' k);
+    - apply (LocalCostP.census_model_local (inp_left G F) (inp_left G F') (g_dmin G) (g_dmax G) r c r' c' k);
+        try assumption; cbn; try (repeat split; assumption); try lia; try exact Hm; repeat split; reflexivity.
+    - f_equal.
+      apply (LocalCostP.zncc_model_local (inp_left G F) (inp_left G F') (g_dmin G) (g_dmax G) r c r' c' k);
         try assumption; cbn; try (repeat split; assumption); try lia; repeat split; reflexivity.
   Qed.
 End MC.
